@@ -923,6 +923,28 @@ def gen_C04(rng, tier):
     out += mixed_session_battery(rng, ["files", "len", "range"])
     out += delta_bytes_battery(["files", "read_all s=U e=U", "len", "range"])
     out += empty_reopen_battery(["files", "len", "range", "read_all s=U e=U"])
+    # series whose NAME contains dots: create, append, close, reopen under the same name - every file the
+    # create made must be the file the open looks for
+    for nm in ("s.v2", "s.4", "s.2024-05"):
+        for p in (0, 4):
+            h = Hist(p)
+            h.op(f"new p={p} hdr=- caches=- name={nm}")
+            h.push(5, pl=bytes(p))
+            h.push(9, pl=bytes([7] * p))
+            h.push(9 + MAXD + 3, pl=bytes([8] * p))
+            h.op("files")
+            h.op("close")
+            h.op("files")
+            for _ in range(2):
+                h.op(f"open p=any hdr=any caches=- cb=none ext=0 name={nm}")
+                h.op("len")
+                h.op("range")
+                h.op("read_all s=U e=U")
+                h.op(f"push ts={h.last() + 3} pl={hexs(bytes([9] * p))}")
+                h.ts.append(h.last() + 3)
+                h.op("close")
+                h.op("files")
+            out.append((f"dotted-name-{nm}-p{p}", h.script()))
     # the same with downsample caches configured: reopening at every fill level of a bucket, with time
     # gaps inside the unfinished bucket, must succeed and preserve everything
     for B in (3, 10):
@@ -1159,7 +1181,8 @@ def payload_sweep_battery(ops_after):
     """EVERY payload size from 0 to 300 and a few larger ones (a bug tied to one particular size, or
     to a residue of the size modulo some block length, needs exactly that size): two sections, reopen"""
     out = []
-    sizes = list(range(0, 301)) + [511, 512, 513, 1023, 1024, 1027, 1028, 1029, 4099, 4100, 16382, 16383, 16384, 16385]
+    sizes = list(range(0, 301)) + [511, 512, 513, 1023, 1024, 1027, 1028, 1029, 4099, 4100, 16382, 16383, 16384, 16385,
+                                        32766, 32767, 65533, 65534, 65535, 65536, 70000, 100000, 131071]   # lines longer than any fixed chunk
     for p in sizes:
         h = Hist(p)
         h.new()
@@ -2006,10 +2029,38 @@ def gen_C09(rng, tier):
             h.op("files")
             h.op("read_n n=2 s=U e=U")
             h.op("close")
+            h.op(f"get c{B}")
             h.open()
             h.op("files")
             h.op("close")
+            h.op(f"get c{B}")
         out.append((f"ahead-B{B}-p{p}", h.script()))
+    # the same with evenly spaced lines and larger buckets: losing fewer than about half a bucket leaves the
+    # cache's last bucket NOT newer than the last surviving line, so it is kept and the lost lines are
+    # skipped when they come again (`lines_to_skip` = 1 .. B-1); the bucket after that must hold its own lines only
+    for p in ([4] if tier == "quick" else [0, 2, 4]):
+        for B in (3, 4, 5, 10):
+            h = Hist(p, caches=[B])
+            h.new()
+            h.pushrun(1000, 10, 3 * B, 5)
+            Hh = header_len(p, 0)
+            total = Hh + h.off
+            h.op("close")
+            h.op("save 0")
+            for k in range(1, B):
+                h.op("restore 0")
+                h.op(f"cut data {total - k * h.ls}")
+                h.open()
+                h.op(f"pushrun ts0={1000 + 10 * (3 * B - k)} step=10 count={3 * B + 1} seed={k + 20}")
+                h.op("files")
+                h.op("read_n n=3 s=U e=U")
+                h.op("close")
+                h.op(f"get c{B}")              # bucket for bucket: only the straddling bucket may deviate
+                h.open()
+                h.op("files")
+                h.op("close")
+                h.op(f"get c{B}")
+            out.append((f"ahead-even-B{B}-p{p}", h.script()))
     return out
 
 
